@@ -338,7 +338,8 @@ func (w *World) canReach(targets map[*ssa.Function]bool) map[*ssa.Function]bool 
 				continue
 			}
 			for _, e := range n.Out {
-				if out[e.Callee.Func] {
+				// a method value is called through its synthetic bound wrapper
+				if out[e.Callee.Func] || (e.Callee.Func != nil && e.Callee.Func.Synthetic != "" && out[w.throughWrapper(e.Callee.Func)]) {
 					out[f] = true
 					changed = true
 					break
